@@ -160,6 +160,8 @@ class Realizer:
       it = items[0]
       r = tagging.TaggedValue(tags=tags_of(it.get('tg', 1)) or [T0],
                               default=fdl.NO_VALUE if it['val'] == 0 else self.val(it['val']))
+    elif k == 'mleaf':
+      r = {7}                      # a set: mutable, compared by value, not traversable
     elif k == 'list':
       r = [self.val(it['val']) for it in items]
     elif k == 'tuple':
@@ -266,6 +268,8 @@ class Projector:
       node['k'] = 'ntuple' if hasattr(x, '_fields') else 'tuple'
       for j, v in enumerate(x):
         node['items'].append({'key': j, 'val': self.val(v), 'tg': 0})
+    elif isinstance(x, set):
+      node['k'] = 'mleaf'
     elif isinstance(x, dict):
       node['k'] = 'dict'
       its = list(x.items())
